@@ -1033,7 +1033,8 @@ func RuleB1(c *Ctx) {
 			if !isIA {
 				return
 			}
-			if u, isCall := ia.Index.(*ssa.Call); isCall && core.IsMethod(core.Callee(u.Common()), "math/big", "Int", "Uint64") && u.Call.Args[0] == reg[0].Call.Args[1] {
+			// Uint64 of the integer ToBigIntRegular filled: its argument, or its (identical) return value
+			if u, isCall := core.StripConv(ia.Index).(*ssa.Call); isCall && core.IsMethod(core.Callee(u.Common()), "math/big", "Int", "Uint64") && (u.Call.Args[0] == reg[0].Call.Args[1] || u.Call.Args[0] == ssa.Value(reg[0])) {
 				if one, isOne := st.Val.(*ssa.Call); isOne && core.IsFunc(core.Callee(one.Common()), "bandersnatch/fr", "One") {
 					ok = core.PathOf(reg[0].Call.Args[0]) == "*(&p:evalPoint)"
 				}
